@@ -40,6 +40,8 @@ struct Agg {
     drift_kinds: BTreeMap<String, u64>,
     samples: Vec<Value>,
     counters: BTreeMap<String, u64>,
+    trace_out: Option<std::fs::File>,
+    trace_histories: u64,
 }
 
 fn hash_str(s: &str) -> u64 {
@@ -107,8 +109,16 @@ fn absorb(agg: &mut Agg, stage: &str, case: &str, o: &Value) {
             let kind = d.get("kind").and_then(|k| k.as_str()).unwrap_or("?").to_string();
             let n = agg.drift_kinds.entry(kind).or_insert(0);
             *n += 1;
+            if let (Some(evs), Some(f)) = (d.get("events").and_then(|e| e.as_array()), agg.trace_out.as_mut()) {
+                // drifted histories are judged by the P-layer in TLC; cap per kind, keep the file small
+                if *n <= 60 && agg.trace_histories < 1500 {
+                    agg.trace_histories += 1;
+                    for e in evs { let _ = writeln!(f, "{}", e); }
+                }
+            }
             if *n <= 3 && agg.drift_samples.len() < 30 {
                 let mut d = d.clone();
+                if let Some(m) = d.as_object_mut() { m.remove("events"); }
                 d["case"] = serde_json::from_str(case).unwrap_or(Value::Null);
                 agg.drift_samples.push(d);
             }
@@ -121,23 +131,48 @@ fn replay(stage: &str, args: &[String], plain: bool) {
     let mut tlclog: Option<std::fs::File> = arg(args, "--tlclog").map(|p| std::fs::File::create(p).unwrap());
     let out = arg(args, "--out");
     let limit: Option<u64> = arg(args, "--limit").and_then(|s| s.parse().ok());
-    let mut agg = Agg { cases: 0, evals: 0, keys: HashSet::new(), viol_count: 0, viols: vec![], viol_seen: HashSet::new(),
-        drift_count: 0, drift_samples: vec![], drift_kinds: BTreeMap::new(), samples: vec![], counters: BTreeMap::new() };
-    let mut worker = None;
+    let agg = Agg { cases: 0, evals: 0, keys: HashSet::new(), viol_count: 0, viols: vec![], viol_seen: HashSet::new(),
+        drift_count: 0, drift_samples: vec![], drift_kinds: BTreeMap::new(), samples: vec![], counters: BTreeMap::new(),
+        trace_out: arg(args, "--trace-out").map(|p| std::fs::File::create(p).unwrap()), trace_histories: 0 };
+    // pool of isolated workers: reader thread -> bounded queue of batches -> K supervisors -> absorb
+    let nworkers: usize = std::env::var("VERIF_WORKERS").ok().and_then(|s| s.parse().ok()).unwrap_or(6);
+    let (btx, brx) = std::sync::mpsc::sync_channel::<Vec<String>>(nworkers * 2);
+    let brx = std::sync::Arc::new(std::sync::Mutex::new(brx));
+    let (rtx, rrx) = std::sync::mpsc::channel::<(Vec<String>, Vec<Value>)>();
+    let mut sups = vec![];
+    for _ in 0..nworkers {
+        let brx = brx.clone();
+        let rtx = rtx.clone();
+        let stage = stage.to_string();
+        sups.push(std::thread::spawn(move || {
+            let mut worker = None;
+            loop {
+                let batch = { let g = brx.lock().unwrap(); g.recv() };
+                match batch {
+                    Ok(b) => {
+                        let res = iso::run_batch(&stage, seed, &b, &mut worker);
+                        if rtx.send((b, res)).is_err() { break; }
+                    }
+                    Err(_) => break,
+                }
+            }
+            iso::shutdown(&mut worker);
+        }));
+    }
+    drop(rtx);
+    let stage_s = stage.to_string();
+    let absorber = std::thread::spawn(move || {
+        let mut agg = agg;
+        for (b, res) in rrx.iter() {
+            for (c, o) in b.iter().zip(res.iter()) { absorb(&mut agg, &stage_s, c, o); }
+        }
+        agg
+    });
     let mut batch: Vec<String> = Vec::new();
     let stdin = std::io::stdin();
     let t0 = std::time::Instant::now();
-    let flush = |batch: &mut Vec<String>, agg: &mut Agg, worker: &mut Option<iso::Worker>| {
-        if batch.is_empty() {
-            return;
-        }
-        let res = iso::run_batch(stage, seed, batch, worker);
-        for (c, o) in batch.iter().zip(res.iter()) {
-            absorb(agg, stage, c, o);
-        }
-        batch.clear();
-    };
     let mut skipped = 0u64;
+    let mut taken = 0u64;
     for line in stdin.lock().lines() {
         let line = match line { Ok(l) => l, Err(_) => break };
         let case = if plain {
@@ -148,11 +183,12 @@ fn replay(stage: &str, args: &[String], plain: bool) {
         match case {
             Some(c) => {
                 if let Some(l) = limit {
-                    if agg.cases + batch.len() as u64 >= l { skipped += 1; continue; }
+                    if taken >= l { skipped += 1; continue; }
                 }
+                taken += 1;
                 batch.push(c);
-                if batch.len() >= 4000 {
-                    flush(&mut batch, &mut agg, &mut worker);
+                if batch.len() >= 1000 {
+                    let _ = btx.send(std::mem::take(&mut batch));
                 }
             }
             None => {
@@ -162,8 +198,10 @@ fn replay(stage: &str, args: &[String], plain: bool) {
             }
         }
     }
-    flush(&mut batch, &mut agg, &mut worker);
-    iso::shutdown(&mut worker);
+    if !batch.is_empty() { let _ = btx.send(std::mem::take(&mut batch)); }
+    drop(btx);
+    for s in sups { let _ = s.join(); }
+    let agg = absorber.join().unwrap();
     let res = json!({
         "stage": stage, "seed": seed, "cases": agg.cases, "evaluations": agg.evals,
         "distinct_nontrivial": agg.keys.len(), "violations": agg.viol_count, "viols": agg.viols,
